@@ -239,5 +239,10 @@ def _run(cfg, mode, op, dense, c):
         ne = a != b
         if eq != should or ne != (not eq) or (b == a) != eq or not (a == a) or (a == 5) is not False:
             return "== %r (expected %r), != %r" % (eq, should, ne)
+        from catii import iindex
+        empty = iindex({}, cfg["common"], tuple(cfg["shape"]))
+        for left, x in [(a, {3: "hi"}), (a, 5), (a, None), (a, {}), (empty, {}), (empty, [])]:
+            if (left == x) is not False or (left != x) is not True or (x == left) is not False or (x != left) is not True:
+                return "comparison with the non-index %r: == %r, != %r (reflected: %r, %r)" % (x, left == x, left != x, x == left, x != left)
         return None
     return "unknown op"
